@@ -285,6 +285,13 @@ func Run(c *mc.Ctx, cfg *Config, opts schedh.Opts) *Obs {
 		// source-complete event marks the end: run for a virtual second (five watermark ticks, every
 		// batch time-out) and judge what has been delivered by then
 		shim.Sleep(cfg.Horizon)
+		// an early timer expiry is one of the explored deviations: the horizon may have been reached
+		// while goroutines were still runnable. A few short sleeps more than the deviation budget
+		// guarantee that everything runnable has run (and one more batch time-out has passed)
+		// before the streams are judged.
+		for i := 0; i < 6; i++ {
+			shim.Sleep(5 * time.Millisecond)
+		}
 		obs.Complete = true
 		cancel()
 		shim.Recv(stopped)
